@@ -171,7 +171,7 @@ Definition dispatch (x : sx) : sx :=
                 SL [sx_w "torch"; sx_comp (compile torch_tables rho0 e')];
                 SL [sx_w "run"; match c with Some c' => sx_res (run_compiled np_tables call_guard c' rho) | None => SL [sx_w "nocomp"] end];
                 SL [sx_w "interp"; sx_res (interp rho e')];
-                SL [sx_w "site"; sx_res (site np_tables call_guard c rho e')];
+                SL [sx_w "site"; sx_res (site np_tables call_guard fallback_catches_all c rho e')];
                 SL [sx_w "d5"; sx_bool (d5 rho e')];
                 SL [sx_w "guard"; sx_bool call_guard]]
         | _, _, _ => sx_err "decode"
